@@ -68,8 +68,8 @@ def apply_simple_adc(
     """
     output = (
         (np.clip(signal, a_min=voltage_min, a_max=voltage_max) - voltage_min)
-        * (2**bit_resolution - 1)
         / (voltage_max - voltage_min)
+        * (2**bit_resolution - 1)
     )
 
     return np.trunc(output).astype(dtype)
